@@ -12,7 +12,7 @@
     validated by TLC against spec/Trace_XattrPlace.tla: exact placement, order, sizes, offsets, reference counts,
     free-block / free-inode / i_blocks accounting, and get-of-every-name = the model map; all invariants at every step.
 (3) `e2fsck -fn` must be clean at the end of every history (consistent(); to be replaced by the independent reader)."""
-import os, sys, json, random, shutil, subprocess, time, threading, re, hashlib
+import struct, os, sys, json, random, shutil, subprocess, time, threading, re, hashlib
 import concurrent.futures as cf
 from common import VERIF, fast_tmp, seed, die_broken, tool_env, run as crun
 import build, tlc as T, tracecheck
@@ -316,6 +316,9 @@ def run_lib(drvbin, b, env, base, img, pname, beh):
         d.send("close")
     except RuntimeError as e:
         probs.append(("crash", str(e)))
+    except (struct.error, IndexError, KeyError, ValueError, ZeroDivisionError, OverflowError) as e:
+        # the independent parser cannot make sense of what the step left on disk: the code under test wrote garbage
+        probs.append(("unparseable", "the image is not parseable after step %d of the history (%s: %s)" % (len(lines), type(e).__name__, e)))
     finally:
         d.close()
     if not probs and not beh.get("nofsck"):
@@ -414,6 +417,8 @@ def run_debugfs(b, env, base, img, work, pname, beh):
             lines.append(ln)
     except RuntimeError as e:
         probs.append(("crash", str(e)))
+    except (struct.error, IndexError, KeyError, ValueError, ZeroDivisionError, OverflowError) as e:
+        probs.append(("unparseable", "the image is not parseable after step %d of the history (%s: %s)" % (len(lines), type(e).__name__, e)))
     if not probs:
         ok, msg = consistent(b, env, img)
         if not ok:
@@ -599,7 +604,7 @@ def validate(vd, ev, work, behs, results):
         byp.setdefault(beh["profile"], []).append(i)
     mod = os.path.join(SPEC, "Trace_XattrPlace.tla")
     for pname, idxs in byp.items():
-        idxs = [i for i in idxs if results[i][0] and not any(k == "crash" for k, _ in results[i][1])]
+        idxs = [i for i in idxs if results[i][0] and not any(k in ("crash", "unparseable") for k, _ in results[i][1])]
         if not idxs:
             continue
         cfg = trace_cfg(work, pname)
@@ -625,7 +630,6 @@ def validate(vd, ev, work, behs, results):
             for f in res["failures"]:
                 if nbad >= MAX_REPORT:
                     break
-                ci = int(re.search(r"chunk(\d+)", os.path.basename(f["chunk"])).group(1))
                 bi = f["behaviour"]
                 rej, matched, inv, tail, _ = tracecheck.confirm(sub[bi], mod, cfg, wd)      # re-run alone before reporting
                 if rej:
@@ -638,8 +642,8 @@ def validate(vd, ev, work, behs, results):
                     vd.violation(key, "%s: profile %s front %s, step %d (%s) %s" % (
                         what, pname, behs[i]["front"], k, describe(behs[i], k - 1), "; ".join(ln.get("why", []))[:200]),
                         {"behaviour": behs[i], "first_unmatched_line": k, "line": ln, "tlc_tail": tail[-1200:]})
-                nxt += [todo[x] for x in ch[ci] if x > bi]      # not looked at by TLC yet
-            todo = sorted(nxt)
+            # tracecheck.validate re-runs the behaviours behind a failure itself: every behaviour of `sub` has been looked at
+            todo = []
         accepted += len(idxs) - nbad - unchecked
         if unchecked:
             ev.cov.setdefault("not_validated_after_violations", 0)
